@@ -19,8 +19,8 @@ TRUSTED = [
     "Spec/TdFloat.v (SpecFloat binary64 + CPython's float/timedelta primitives) as validated by C09's tdfloat-* streams; Model/Duration.v (Duration.__new__) as validated by C09",
     "Python's binary operator protocol for a heap subclass of timedelta (subclass-first reflected call, NotImplemented -> TypeError, inherited reflected slots are timedelta's own "
     "arithmetic on the native values) is hand-modelled in Model/DurationOps.arith_op and validated by the type-table stream on every run",
-    "float premises add_float_exact / mul_float_exact of Proofs/C10Facts.v (the float reconstruction Duration(seconds=<float sum/product>) is exact below 2^31 s): NOT proved; "
-    "carried as explicit premises by the *_partial theorems; validated on every run by the addsub-* / mulint-* streams; C09's float_split_exact_on_D9 likewise",
+    "float premises addsub_float_exact / mul_float_exact of Proofs/C10Facts.v (the float reconstruction Duration(seconds=<float sum/product>) is exact below 2^31 s): NOT proved; "
+    "carried as explicit premises by the *_partial theorems; validated on every run by the pairs-add / pairs-sub / pairs-mul streams (inside the domain) and band-* streams (outside: known finding); C09's float_split_exact_on_D9 likewise",
 ]
 ASSUMPTIONS = [
     "operands are Python ints (not bool), floats, pendulum Durations built from integer arguments, plain datetime.timedelta, Intervals of naive datetimes",
@@ -308,7 +308,7 @@ def cases(tier, seed):
         r = rnd.choice([v_int(rnd.randint(1, 9)), v_float(rnd.choice([0.5, 1.5, 2.0])), v_dur(rand_n(rnd), rnd=rnd), v_td(rand_n(rnd))])
         binop("far-" + op, op, v_dur(a, rnd=rnd), r)
         unop("far-neg", "neg", v_dur(a, rnd=rnd))
-    binop("band-addsub", "add", v_dur(-2164598863760106), v_dur(2138816986554400))
+    binop("band-addsub", "add", v_dur(-2240990336911072), v_dur(-564728395307133))
     binop("band-mul-int", "mul", v_dur(-4433329909397), v_int(617))
     # 9. the timedelta range: results that overflow
     for _ in range(60 * scale):
